@@ -218,8 +218,17 @@ fn gfun(kind: usize, x: f64) -> (f64, f64) {
         _ => (x * x, 2.0 * x),
     }
 }
+thread_local! {
+    /// which root the system families are built around (0: the generic -0.75 + i/2; 1, 2: roots with components -1, 0, 1, 2 - values at
+    /// which a relative finite-difference step written as delta (1 + x_i), or one scaled by x_i itself, vanishes)
+    static ROOT_KIND: Cell<usize> = Cell::new(0);
+}
 fn xroot(n: usize) -> Vec<f64> {
-    (0..n).map(|i| 0.5 * (i as f64) - 0.75).collect()
+    match ROOT_KIND.with(|k| k.get()) {
+        0 => (0..n).map(|i| 0.5 * (i as f64) - 0.75).collect(),
+        1 => (0..n).map(|i| [-1.0, 0.5, 2.0, -1.0, 0.0, 1.0][i % 6]).collect(),
+        _ => (0..n).map(|i| [1.0, -1.0, 0.0, -2.0, -1.0, 0.25][i % 6]).collect(),
+    }
 }
 fn system_case(n: usize, kind: usize, gi: usize, tol: f64, max_iter: usize, exact_jac: bool, acc: &mut Acc) -> Result<(), String> {
     let d = dmat(n);
@@ -1084,6 +1093,51 @@ fn main() {
             }
         },
     );
+    // the same families about roots whose components are -1, 0, 1, 2 (guess#0 starts AT the root, so the first Jacobian is taken there)
+    {
+        let pers2 = (2 * 4 * 2 * 2 * 2) as u64;
+        ctx.lattice(
+            "real systems about roots with components -1, 0, 1, 2: dimension 1..6 x 2 root sets x 2 nonlinearities x 4 guesses x tol {1e-8,1e-12} x max_iter {4,40} x {finite-difference, supplied} Jacobian",
+            6 * pers2,
+            |idx| format!("{}", idx),
+            |idx, acc| {
+                let n = 1 + (idx / pers2) as usize;
+                let mut r = idx % pers2;
+                let ej = r % 2 == 1;
+                r /= 2;
+                let it = [4usize, 40][(r % 2) as usize];
+                r /= 2;
+                let tol = [1e-8, 1e-12][(r % 2) as usize];
+                r /= 2;
+                let gi = (r % 4) as usize;
+                r /= 4;
+                let kind = (r % 2) as usize;
+                acc.nontriv("system about a root with components -1, 0, 1");
+                for rk in 1..=2usize {
+                    let mut local = Acc::new("t");
+                    ROOT_KIND.with(|k| k.set(rk));
+                    let res = catch(|| system_case(n, kind, gi, tol, it, ej, &mut local));
+                    ROOT_KIND.with(|k| k.set(0));
+                    for (k, v) in std::mem::take(&mut local.hits) {
+                        *acc.hits.entry(k).or_insert(0) += v;
+                    }
+                    acc.merge_worst(local);
+                    let key = || format!("system about root set {} n={} g#{} guess#{} tol={:e} max_iter={} supplied_jacobian={}", rk, n, kind, gi, tol, it, ej);
+                    match res {
+                        Ok(Ok(())) => {}
+                        Ok(Err(e)) => {
+                            if e.starts_with("MACHINERY") {
+                                acc.machinery(e)
+                            } else {
+                                acc.fail(idx, key(), e)
+                            }
+                        }
+                        Err(p) => acc.fail(idx, key(), format!("unexpected panic: {}", p)),
+                    }
+                }
+            },
+        );
+    }
     // dimensions beyond 6 (every residue of a 4- or 8-wise blocked residual test), and systems in which ONE equation has no
     // root (x_p^2 + 1 = 0 at position p): such a system has no root, so success must never be reported
     {
